@@ -40,16 +40,18 @@ end Au
 
 namespace Au
 
-/-- Exact value of a π-free magnitude with integer exponents (0 if it has another form). -/
-def Mag.toRat? (m : Mag) : Option Rat :=
-  m.foldl (fun acc a =>
-    match acc, a.1 with
-    | some v, .prime p =>
-      if a.2.den = 1 then
-        (if 0 ≤ a.2.num then some (v * ((p ^ a.2.num.toNat : Nat) : Rat))
-         else some (v / ((p ^ (-a.2.num).toNat : Nat) : Rat)))
-      else none
-    | _, _ => none) (some 1)
+/-- One step of `Mag.toRat?`. -/
+def Mag.toRatStep (acc : Option Rat) (a : MagBase × Rat) : Option Rat :=
+  match acc, a.1 with
+  | some v, .prime p =>
+    if a.2.den = 1 then
+      (if 0 ≤ a.2.num then some (v * ((p ^ a.2.num.toNat : Nat) : Rat))
+       else some (v / ((p ^ (-a.2.num).toNat : Nat) : Rat)))
+    else none
+  | _, _ => none
+
+/-- Exact value of a π-free magnitude with integer exponents (`none` if it has another form). -/
+def Mag.toRat? (m : Mag) : Option Rat := m.foldl Mag.toRatStep (some 1)
 
 /-- An origin quantity as declared by a unit: `count` in a unit of magnitude `unitMag`
 (`none` = the unit declares no origin: `ZERO`). -/
@@ -69,5 +71,28 @@ def dispUnitMag (oc ou : OriginDecl) (pc pu : Origin) : Option Mag :=
     | none, some (_, m) => some m
     | some (_, m), none => some m
     | some (_, mc), some (_, mu) => some (Mag.common2 mc mu)
+
+
+/-- `detail::CommonOrigin<Us...>` again, carrying along the declaration that produced each origin
+(same fold, same tie-breaking as `commonOrigin`). -/
+def commonOriginD : List (Origin × OriginDecl) → Origin × OriginDecl
+  | [] => (⟨0, 0, 0⟩, none)
+  | [o] => o
+  | h :: t =>
+    let c := commonOriginD t
+    if h.1.pos < c.1.pos then h
+    else if c.1.pos < h.1.pos then c
+    else if h.1.native < c.1.native then h else c
+
+/-- The whole `CommonPointUnit<Us...>` computation on (unit magnitude, origin declaration) pairs:
+the common origin, the unit magnitudes of the non-zero origin displacements, and
+`CommonPointUnit::Mag`.  `none` when an origin is not a rational number of base units. -/
+def commonPointAssembly (us : List (Mag × OriginDecl)) : Option (Mag × Origin × OriginDecl) :=
+  match us.mapM (fun u => u.2.toOrigin?) with
+  | none => none
+  | some origins =>
+    let c := commonOriginD ((us.zip origins).map fun p => (p.2, p.1.2))
+    let disp := (us.zip origins).filterMap fun p => dispUnitMag c.2 p.1.2 c.1 p.2
+    some (commonPointMag (us.map (·.1)) disp, c.1, c.2)
 
 end Au
